@@ -76,7 +76,13 @@ def generate(seed, tier):
                 "law": r.random() < (0.25 if tier == "thorough" else 0.03),
             }
         )
-    return {"property": PROP, "run_seed": seed, "sub": P.s64(r), "config": {"state": scfg}, "ops": ops}
+    config = {"state": scfg}
+    if r.random() < 0.35:
+        config["twin_pseed"] = P.s64(r)
+        config["twin_scale"] = r.choice([0.1, 1.0, 5.0])
+        for op in ops:
+            op["m"] = r.randrange(2)
+    return {"property": PROP, "run_seed": seed, "sub": P.s64(r), "config": config, "ops": ops}
 
 
 def _kernel_from_public_methods(state, table):
@@ -123,20 +129,25 @@ def execute(plan):
     scfg = plan["config"]["state"]
     rng = RngSeam(run)
     results = {}  # op index -> tensor returned
-    trace = [scfg["type"], scfg["nv"], scfg["nh"], scfg.get("na", 0)]
+    trace = [scfg["type"], scfg["nv"], scfg["nh"], scfg.get("na", 0), plan["config"].get("twin_pseed") is not None]
     refined_ops = 0
 
     with rng:
         rng.stream(plan["sub"])
-        state = build_state(scfg)
+        # two models of the same shape may be alive in one run: nothing learnt about one may leak into the other
+        states = [build_state(scfg)]
+        if plan["config"].get("twin_pseed") is not None:
+            states.append(build_state(dict(scfg, pseed=plan["config"]["twin_pseed"], scale=plan["config"].get("twin_scale", scfg["scale"]))))
+        tables = [None] * len(states)
+        state = states[0]
         nv = state.num_visible
         rng.arm_global(plan["sub"])
         table = None
 
-        def static_rules():
-            """rules 1 and 3 for the current parameters"""
-            nonlocal table
-            table = Table(raw_params(state.rbm_am))
+        def static_rules(mi):
+            """rules 1 and 3 for the current parameters of model mi"""
+            state = states[mi]
+            table = tables[mi] = Table(raw_params(state.rbm_am))
             space = state.generate_hilbert_space()
             if not np.array_equal(space.numpy(), table.Vb):
                 run.inconclusive["space_convention"] += 1
@@ -169,15 +180,19 @@ def execute(plan):
             if dk > 1e-9:
                 run.violate("3", f"kernel from the public conditionals differs from the enumerated block-Gibbs kernel by {dk:.2e}", scale=scfg["scale"])
 
-        static_rules()
+        for mi_ in range(len(states)):
+            static_rules(mi_)
 
         for j, op in enumerate(plan["ops"]):
+            mi = op.get("m", 0) % len(states)
+            state = states[mi]
             if op["op"] == "reparam":
                 randomise(state, op["pseed"], op["scale"])
-                run.log.add("op", "reparam", j)
-                trace.append("R")
-                static_rules()
+                run.log.add("op", "reparam", j, mi)
+                trace.append(("R", mi))
+                static_rules(mi)
                 continue
+            table = tables[mi]
             k = op["k"]
             st = op["start"]
             kind = st["kind"]
@@ -237,7 +252,7 @@ def execute(plan):
                 ref.reset(None, BIGK)  # track as many steps as are drawn; the op-level rule compares with k
             rng.listeners.append(listener)
             rng.stream(op["sub"], mode=op["mode"], rare=0.15)
-            run.log.add("op", "sample", j, via, k, kind, op["overwrite"])
+            run.log.add("op", "sample", j, via, k, kind, op["overwrite"], mi)
             res = None
             try:
                 if via == "rbm":
@@ -360,6 +375,12 @@ def shrink(plan):
     if c["scale"] != 1.0:
         q = copy.deepcopy(plan)
         q["config"]["state"]["scale"] = 1.0
+        out.append(q)
+    if plan["config"].get("twin_pseed") is not None:
+        q = copy.deepcopy(plan)
+        q["config"].pop("twin_pseed")
+        for op in q["ops"]:
+            op.pop("m", None)
         out.append(q)
     for j, op in enumerate(plan["ops"]):
         if op["op"] != "sample":
